@@ -21,6 +21,9 @@ ASSUMPTIONS = [
     "Node.recv_loop (op recv_loop_eof) is exercised on the implementation only: the real loop body in a thread on a "
     "scripted peer that closes the connection; the required outcome (pings answered, loop ENDS) is computed by the "
     "harness from the reference framing, not by the Coq model",
+    "tables read at call time: sessions that register entries in INVENTORY_TYPE_ID / COMMANDS / the parse_<command>_payload "
+    "namespace at run time are compared with Model/P2pTables.v applied to the extended tables (reference tables + the "
+    "registered entries, dict/list semantics computed by the harness)",
     "module state: sessions of set_magic_start_bytes / recv_msg / msg_ser calls sharing MAGIC_START_BYTES are compared with "
     "Model/P2pSession.v (a refused call leaves the global unchanged); network names are ASCII-lowercased in the model",
     "the receive path is run under the interpreter's default recursion limit (1000), not the worker's raised one",
@@ -414,6 +417,95 @@ def _spec_parsed(c, p):
     return None      # pong, tx, ...: no parser in the library
 
 
+def effective_tables(extra_inv, extra_cmds):
+    """the tables as the reference defines them plus the entries registered at run time (dict / list semantics)"""
+    d = dict(INV_TYPES)
+    for k, v in extra_inv:
+        d[k] = v
+    return list(d.items()), list(SPEC_COMMANDS) + list(extra_cmds)
+
+
+def impl_table_session(extra_inv, extra_cmds, aliases, steps):
+    """register entries in the module-level tables the codecs read at call time (INVENTORY_TYPE_ID, COMMANDS, and
+    parse_<command>_payload functions in the module namespace), run the steps, then unregister them again.
+    One ["ok", value] / ["err", None] per step."""
+    m = _p2p()
+    saved_inv = dict(m.INVENTORY_TYPE_ID)
+    saved_cmds = list(m.COMMANDS)
+    saved_magic = m.MAGIC_START_BYTES
+    added_attrs = []
+    alias = {a: b for a, b in aliases}
+    out = []
+    try:
+        for k, v in extra_inv:
+            m.INVENTORY_TYPE_ID[k] = v
+        for c in extra_cmds:
+            m.COMMANDS.append(c)
+        for new, old in aliases:
+            name = "parse_%s_payload" % new.decode("ascii")
+            if not hasattr(m, name):
+                setattr(m, name, getattr(m, "parse_%s_payload" % old.decode("ascii")))
+                added_attrs.append(name)
+        with _default_recursion():
+            for st in steps:
+                try:
+                    if st[0] == "inv_rt":
+                        v = impl_inv_rt(st[1], st[2])
+                    elif st[0] == "inventory":
+                        v = m.inventory(st[1], st[2])
+                    elif st[0] == "parse_inventory":
+                        d = m.parse_inventory(st[1])
+                        v = (d["type_id"], bytes.fromhex(d["hash"]))
+                    elif st[0] == "ser_recv":
+                        _, magic, cmd, payload, rest, sched = st
+                        fr = m.msg_ser(magic, cmd, payload)
+                        stream = bytes(fr) + bytes(rest)
+                        m.MAGIC_START_BYTES = magic
+                        sk = ScriptedSocket(stream, sched, len(stream) + 3)
+                        a, c, p = m.recv_msg(sk)
+                        v = (fr, (a, c, p, stream[sk.pos:], sk.calls))
+                    elif st[0] == "parse_inv":
+                        v = _inv_tuple(m.parse_payload(b"inv", st[1]))
+                    elif st[0] == "parse":
+                        target = alias.get(st[1], st[1])
+                        v = _canon_parsed(target, m.parse_payload(st[1], st[2]))
+                    else:
+                        raise RuntimeError("unknown step %r" % (st[0],))
+                    out.append(["ok", v])
+                except Exception:
+                    out.append(["err", None])
+        return out
+    finally:
+        m.MAGIC_START_BYTES = saved_magic
+        m.INVENTORY_TYPE_ID.clear()
+        m.INVENTORY_TYPE_ID.update(saved_inv)
+        m.COMMANDS[:] = saved_cmds
+        for name in added_attrs:
+            delattr(m, name)
+
+
+def table_session_model_calls(c):
+    extra_inv, extra_cmds, aliases, steps = c["args"]
+    tbl, cmds = effective_tables(extra_inv, extra_cmds)
+    alias = {bytes(a): bytes(b) for a, b in aliases}
+    calls = []
+    for st in steps:
+        if st[0] == "inv_rt":
+            calls.append(("c17_inv_rt_in", [tbl, st[1], st[2]]))
+        elif st[0] == "inventory":
+            calls.append(("c17_inventory_in", [tbl, st[1], st[2]]))
+        elif st[0] == "parse_inventory":
+            calls.append(("c17_parse_inventory_in", [tbl, st[1]]))
+        elif st[0] == "parse_inv":
+            calls.append(("c17_parse_inv_payload_in", [tbl, st[1]]))
+        elif st[0] == "ser_recv":
+            _, magic, cmd, payload, rest, sched = st
+            calls.append(("c17_ser_recv_in", [cmds, 24 + len(cmd) + len(payload) + len(rest) + 40, magic, cmd, payload, rest, sched]))
+        else:
+            calls.append(("c17_parse_payload", [alias.get(bytes(st[1]), st[1]), st[2]]))
+    return calls
+
+
 def _pnia(d):
     return (d["time"], d["services"], d["ip_addr"], d["port"])
 
@@ -426,6 +518,7 @@ IMPL = {
     "recv_msgs": impl_recv_msgs,
     "recv_loop_eof": impl_recv_loop_eof,
     "magic_session": impl_magic_session,
+    "table_session": impl_table_session,
     "version_payload": impl_version_payload,
     "version_rt": impl_version_rt,
     "parse_version_payload": lambda b: _version_tuple(_p2p().parse_version_payload(b)),
@@ -447,6 +540,8 @@ IMPL = {
 
 
 def model_call(c):
+    if c["op"] == "table_session":
+        return table_session_model_calls(c)
     return ("c17_" + c["op"], c["args"])
 
 
@@ -659,6 +754,80 @@ def gen_cases(rng, tier):
             else:
                 steps.append((3, rng.choice(SPEC_COMMANDS), rng.randbytes(rng.randrange(0, 9))))
         sess("state-random-session", cur, steps)
+
+    # --- module-level tables the codecs read AT CALL TIME (INVENTORY_TYPE_ID, COMMANDS, parse_<command>_payload in the
+    #     module namespace): an application registers an entry after import; everything the library can then build
+    #     must be parsed back (old and new entries alike); afterwards the entry is removed again
+    def h32():
+        return rng.randbytes(32)
+    inv_extras = [("MSG_WTX", 5), ("MSG_FILTERED_WITNESS_BLOCK", 0x40000003), ("MSG_ZERO", 0), ("MSG_MAX", 0xFFFFFFFF),
+                  ("MSG_DSTX", 6), ("X", 0x20000001), ("MSG_TOO_BIG", 2 ** 32), ("MSG_NEG", -1), ("msg_lower", 9),
+                  ("MSG_TX", 7), ("MSG_TX2", 1), ("MSG_\u00c4", 10)]
+    for name, tid in inv_extras:
+        old_names = list(INV_TYPES)
+        steps = [("inventory", name, h32()), ("inv_rt", 1, [(name, h32())]), ("inv_rt", 1, [(name.lower(), h32())]),
+                 ("inv_rt", 3, [(rng.choice(old_names), h32()), (name, h32()), (rng.choice(old_names), h32())]),
+                 ("parse_inventory", struct.pack("<I", tid % 2 ** 32) + h32()),
+                 ("parse_inventory", struct.pack("<I", 1) + h32()),
+                 ("inv_rt", 2, [("MSG_TX", h32()), ("MSG_WITNESS_BLOCK", h32())]),
+                 ("parse_inv", b"\x01" + struct.pack("<I", tid % 2 ** 32) + h32())]
+        if not name.isascii():          # the model upper-cases ASCII only
+            steps.pop(2)
+        out.append(case("table-inventory-registered", "table_session", [(name, tid)], [], [], steps))
+    out.append(case("table-inventory-registered", "table_session", [("MSG_WTX", 5), ("MSG_DSTX", 6)], [], [],
+                    [("inv_rt", 2, [("MSG_DSTX", h32()), ("msg_wtx", h32())]), ("inv_rt", 254, [("MSG_WTX", h32())] * 254)]))
+    out.append(case("table-nothing-registered", "table_session", [], [], [],
+                    [("inv_rt", 1, [("MSG_WTX", h32())]), ("inv_rt", 1, [("MSG_TX", h32())]),
+                     ("ser_recv", MAIN, b"sendheaders", b"", b"", []), ("ser_recv", MAIN, b"ping", pay8, b"z", [5, 40])]))
+    cmd_extras = [b"sendheaders", b"wtxidrelay", b"feefilter", b"abcdefghijkl", b"x", b"sendcmpct", b"a\0b"]
+    odd_cmds = [b"abcdefghijklm", b"cmd\0", b"", b"\0lead", b"verylongcommandname"]      # do not fit the 12-byte field / NUL
+    for cmd in cmd_extras + odd_cmds:
+        pl = rng.randbytes(rng.randrange(0, 20))
+        total = 24 + max(0, len(cmd) - 12) + len(pl) + 2
+        steps = [("ser_recv", MAIN, cmd, pl, b"\x01\x02", rand_sched(rng, total, rng.randrange(1, 6))),
+                 ("ser_recv", MAGIC["regtest"], b"ping", pay8, b"", []),
+                 ("ser_recv", MAIN, cmd, b"", b"", [1] * 40),
+                 ("ser_recv", MAIN, cmd.upper() + b"!", b"", b"", [])]
+        out.append(case("table-command-registered" if cmd in cmd_extras else "table-command-registered-odd", "table_session",
+                        [], [cmd], [], steps))
+    for new, old_, pl in ((b"pong", b"ping", pay8), (b"getdata", b"inv", b"\x01" + struct.pack("<I", 2) + bytes(32)),
+                          (b"notfound", b"inv", b"\x00"), (b"getblocks", b"getheaders", struct.pack("<I", 70015) + b"\x00" + bytes(32)),
+                          (b"tx", b"feefilter", bytes(8))):
+        out.append(case("table-parser-registered", "table_session", [], [], [(new, old_)],
+                        [("parse", new, pl), ("parse", old_, pl), ("parse", b"verack", b""), ("parse", new, pl + b"\xff" * 40)]))
+    for _ in range(150 if T else 25):
+        ex_i = rng.sample(inv_extras, rng.randrange(0, 3))
+        ex_c = rng.sample(cmd_extras, rng.randrange(0, 3))
+        pool_n = list(INV_TYPES) + [k for k, _ in ex_i] + ["MSG_WTX", "nope"]
+        pool_c = SPEC_COMMANDS + ex_c + [b"sendheaders"]
+        steps = []
+        for _ in range(rng.randrange(1, 7)):
+            if rng.random() < 0.5:
+                n = rng.randrange(0, 4)
+                steps.append(("inv_rt", n, [(rng.choice(pool_n), h32()) for _ in range(n)]))
+            else:
+                cmd = rng.choice(pool_c)
+                pl = rng.randbytes(rng.randrange(0, 12))
+                steps.append(("ser_recv", rng.choice(list(MAGIC.values())), cmd, pl, rng.randbytes(rng.randrange(0, 3)),
+                              rand_sched(rng, 24 + len(pl), rng.randrange(1, 5))))
+        out.append(case("table-random-session", "table_session", ex_i, ex_c, [], steps))
+
+    # --- payloads that look like the wire format itself (a whole frame / a header / magics inside the payload, a payload
+    #     equal to the bytes that follow it) and lists with repeated, normally distinct elements
+    inner = spec_ser(MAIN, b"ping", pay8)
+    for pl in (inner, inner + inner, MAIN, MAIN * 6, inner[:24], inner[:23], MAIN + b"ping".ljust(12, b"\0") + struct.pack("<I", 0) + h4(b""),
+               spec_ser(MAGIC["regtest"], b"verack", b""), struct.pack("<I", 8) + h4(pay8), b"\0" * 24, spec_ser(MAIN, b"tx", inner)):
+        for cmd in (b"tx", b"block"):
+            st = spec_ser(MAIN, cmd, pl) + pl[:30]
+            recv("payload-looks-like-frame", st, rand_sched(rng, len(st), rng.randrange(1, 9)))
+            out.append(case("payload-looks-like-frame", "recv_msgs", 2, len(st) + 30, MAIN, spec_ser(MAIN, cmd, pl) + inner,
+                            rand_sched(rng, len(st), rng.randrange(1, 9))))
+    hh = rng.randbytes(32)
+    for n in (2, 3, 253):
+        out.append(case("repeated-elements", "inv_rt", n, [("MSG_TX", hh)] * n))
+        out.append(case("repeated-elements", "getheaders_rt", 70015, n, [hh] * n, hh))
+        out.append(case("repeated-elements", "addr_rt", n, [(7, bytes(8), BIN_IP, 8333)] * n))
+    out.append(case("repeated-elements", "getheaders_rt", 70015, 2, [bytes(32), bytes(32)], bytes(32)))
 
     # --- call budget exactly sufficient / one short (Timeout must coincide with the model's FuelE)
     for sched, need in (([1] * 40, 32), ([24, 8], 2), ([5] * 10, 5 + 2), ([], 2)):
@@ -963,6 +1132,40 @@ def prop_oracle(c):
     op, a = c["op"], c["args"]
     if op == "recv_msg":
         return _oracle_recv_once(*a)[0]
+    if op == "table_session":
+        extra_inv, extra_cmds, aliases, steps = a
+        tbl, cmds = effective_tables([tuple(x) for x in extra_inv], extra_cmds)
+        ids = [v for _, v in tbl]
+        usable = {k for k, v in tbl if k == k.upper() and k.isascii() and 0 <= v < 2 ** 32 and ids.count(v) == 1}
+        got = impl_table_session(extra_inv, extra_cmds, aliases, steps)
+        reg = "with %r registered in INVENTORY_TYPE_ID, %r in COMMANDS, parsers %r" % (extra_inv, extra_cmds, aliases)
+        for i, (st, g) in enumerate(zip(steps, got)):
+            if st[0] == "inv_rt":
+                count, items = st[1], [tuple(x) for x in st[2]]
+                if count == len(items) and all(t.upper() in usable and len(h) == 32 for t, h in items):
+                    want = (count, [(t.upper(), h) for t, h in items])
+                    if g[0] != "ok":
+                        return "step %d: an inv payload the library BUILDS (%s) cannot be parsed back (%s)" % (
+                            i, [t for t, _ in items], reg)
+                    if (g[1][1][0], [tuple(x) for x in g[1][1][1]]) != want:
+                        return "step %d: parse_inv_payload(inv_payload(...)) differs from the entries it was built from (%s)" % (i, reg)
+            elif st[0] == "ser_recv":
+                _, magic, cmd, payload, rest, sched = st
+                if cmd in cmds and 1 <= len(cmd) <= 12 and not cmd.endswith(b"\0") and all(x > 0 for x in sched):
+                    if g[0] != "ok":
+                        return "step %d: command %r is in COMMANDS but its message is not serialised/received (%s)" % (i, cmd, reg)
+                    fr, r = g[1]
+                    if fr != spec_ser(magic, cmd, payload) or tuple(r[:4]) != (magic, cmd, payload, rest):
+                        return "step %d: message %r received as %r (%s)" % (i, (magic, cmd, payload), tuple(r[:3]), reg)
+            elif st[0] == "parse" and any(bytes(n) == bytes(st[1]) for n, _ in aliases):
+                target = [bytes(o) for n, o in aliases if bytes(n) == bytes(st[1])][0]
+                try:
+                    ref = ["ok", _canon_parsed(target, m.parse_payload(target, st[2]))]
+                except Exception:
+                    ref = ["err", None]
+                if common_norm(g) != common_norm(ref):
+                    return "step %d: parse_payload(%r) does not use the parser registered for it (%s)" % (i, st[1], reg)
+        return None
     if op == "magic_session":
         cur, steps = a
         got, final = impl_magic_session(cur, steps)
@@ -1174,6 +1377,12 @@ def shrink(c):
         if sched:
             c2 = dict(c)
             c2["args"] = [fuel, magic, stream, []]
+            yield c2
+    elif c["op"] == "table_session":
+        ei, ec, al, steps = c["args"]
+        for i in range(len(steps)):
+            c2 = dict(c)
+            c2["args"] = [ei, ec, al, steps[:i] + steps[i + 1:]]
             yield c2
     elif c["op"] == "magic_session":
         cur, steps = c["args"]
